@@ -394,6 +394,80 @@ fn dominance(ctx: &Ctx, script: &str, diverting_action: bool) -> (u64, u64) {
     (runs, entered)
 }
 
+// (e2) commands that consist of assignments only (XCU 2.9.1: "If there is no command name, but the
+// command contained a command substitution, the command shall complete with the exit status of the
+// last command substitution performed. Otherwise, the command shall complete with a zero exit
+// status"): every sequence of up to three assignments over {plain, `$(s 0)`, `$(s 3)`, `$(s 5)`,
+// a value with two substitutions} in the six contexts, errexit off and on.
+fn assignment_only_commands(ctx: &Ctx) -> u64 {
+    // (text of the value, status it contributes: None = no command substitution)
+    let values: [(&str, Option<i32>); 6] = [("1", None), ("$(s 0)", Some(0)), ("$(s 3)", Some(3)), ("$(s 5)", Some(5)), ("$(s 3)$(s 0)", Some(0)), ("\"$(s 0)$(s 5)\"", Some(5))];
+    let mut cmds: Vec<(String, i32)> = vec![];
+    let mut frontier: Vec<(Vec<usize>,)> = vec![(vec![],)];
+    for _ in 0..3 {
+        let mut next = vec![];
+        for (f,) in &frontier {
+            for v in 0..values.len() {
+                let mut g = f.clone();
+                g.push(v);
+                next.push((g,));
+            }
+        }
+        for (g,) in &next {
+            let text: Vec<String> = g.iter().enumerate().map(|(i, v)| format!("v{i}={}", values[*v].0)).collect();
+            let status = g.iter().rev().find_map(|v| values[*v].1).unwrap_or(0);
+            cmds.push((text.join(" "), status));
+        }
+        frontier = next;
+    }
+    let n = std::sync::atomic::AtomicU64::new(0);
+    cmds.par_iter().for_each(|(cmd, status)| {
+        for (ctxname, pre, post, exempt) in [
+            ("top", "", "", false),
+            ("group", "{ ", "; }", false),
+            ("function", "f() { ", "; }; f", false),
+            ("if-condition", "if ", "; then p t; else p e; fi", true),
+            ("and-or-left", "", " || p o", true),
+            ("negated", "! ", "", true),
+        ] {
+            for errexit in [false, true] {
+                let script = format!("trap 'p x' EXIT\n{}{pre}{cmd}{post}\np a\n", if errexit { "set -e\n" } else { "" });
+                let r = run_once(&Setup::script(&script), &Default::default());
+                n.fetch_add(1, Relaxed);
+                let tr = r.all_trace();
+                let st = |m: &str| -> Option<i32> { tr.iter().find_map(|t| t.strip_prefix(&format!("{m}:")).and_then(|v| v.parse().ok())) };
+                let exits = tr.iter().filter(|t| t.starts_with("x:")).count();
+                let fails = *status != 0;
+                let problem = if r.panic.is_some() {
+                    Some(("panic", format!("{:?}", r.panic)))
+                } else if exits != 1 {
+                    Some(("exit-trap-count", format!("the EXIT trap ran {exits} times")))
+                } else if errexit && !exempt && fails {
+                    if st("a").is_some() {
+                        Some(("ran-past-abort", "the command after the failing one ran although errexit is on".to_string()))
+                    } else if !matches!(r.end, End::Exited(s) if s == *status) {
+                        Some(("status", format!("the shell ended {:?}, expected exit status {status}", r.end)))
+                    } else {
+                        None
+                    }
+                } else {
+                    match ctxname {
+                        "if-condition" => (st("t").is_some() == fails || st("e").is_some() != fails).then(|| ("assignment-status", format!("the command's status should be {status}, but the `if` took the {} branch", if st("t").is_some() { "then" } else { "else" }))),
+                        "and-or-left" => (st("o").is_some() != fails).then(|| ("assignment-status", format!("`cmd || p o`: status should be {status}, the right-hand side {}", if st("o").is_some() { "ran" } else { "did not run" }))),
+                        "negated" => (st("a") != Some(if fails { 0 } else { 1 })).then(|| ("assignment-status", format!("`! cmd` left $? = {:?} for a command of status {status}", st("a")))),
+                        _ => (st("a") != Some(*status)).then(|| ("assignment-status", format!("$? after the command is {:?}, expected {status}", st("a")))),
+                    }
+                };
+                if let Some((key, what)) = problem {
+                    ctx.violation(&format!("c10:assignments-only:{key}"), &format!("`{pre}{cmd}{post}` (errexit {errexit}): {what}; markers {tr:?}; stderr {:?}", r.stderr.lines().next()), json!({"script": script}));
+                    return;
+                }
+            }
+        }
+    });
+    n.load(Relaxed)
+}
+
 // (e) a failing redirection on a command without a name (XCU 2.9.1: "the command shall
 // immediately fail with an exit status greater than zero"): sets `$?` without errexit, aborts
 // under errexit (outside the exempt contexts), whatever assignments and command substitutions
@@ -523,7 +597,7 @@ fn expansion_errors_in_redirection_operands(ctx: &Ctx) -> u64 {
 
 pub fn run(tier: Tier) -> i32 {
     let ctx = Ctx::new("C10", "exploration", tier);
-    let nameless = nameless_redirection_errors(&ctx) + errexit_in_trap_actions(&ctx) + expansion_errors_in_redirection_operands(&ctx);
+    let nameless = nameless_redirection_errors(&ctx) + errexit_in_trap_actions(&ctx) + expansion_errors_in_redirection_operands(&ctx) + assignment_only_commands(&ctx);
     let dscripts = dominance_scripts();
     let d_runs = AtomicU64::new(0);
     let d_entered = AtomicU64::new(0);
